@@ -47,7 +47,12 @@ def gen_statmech_species(rng, name):
     return sp
 
 
-def gen_reaction(rng, flavor=None, cls=None, ts=None, n_ts=None):
+def shown(key):
+    """name a species object carries: the spec key up to '~' (twins share a name, not the object)"""
+    return key.split('~')[0]
+
+
+def gen_reaction(rng, flavor=None, cls=None, ts=None, n_ts=None, twins=False):
     flavor = flavor or rng.choice(['statmech', 'mixed', 'empirical'])
     if cls is None:
         cls = rng.choice(['Reaction', 'Reaction', 'ChemkinReaction', 'SurfaceReaction']) \
@@ -74,6 +79,21 @@ def gen_reaction(rng, flavor=None, cls=None, ts=None, n_ts=None):
     if rng.random() < 0.15 and npd > 1:
         del species[spec['products'][-1][0]]
         spec['products'][-1][0] = spec['reactants'][0][0]
+    elif twins and rng.random() < 0.15:
+        # two DIFFERENT species objects that carry the same name (gas-phase and adsorbed water both called
+        # 'H2O', a Nasa and a StatMech model of one compound): a product or the TS is a twin of a reactant
+        of = spec['reactants'][rng.randrange(nr)][0]
+        key = of + '~2'
+        tgt = spec['ts'] if (nts and rng.random() < 0.3) else spec['products']
+        j = rng.randrange(len(tgt))
+        if tgt[j][0] in species and tgt[j][0] != of:
+            del species[tgt[j][0]]
+            tgt[j][0] = key
+            if flavor == 'statmech' or (flavor == 'mixed' and rng.random() < 0.4):
+                species[key] = gen_statmech_species(rng, of)
+            else:
+                species[key] = gen_empirical(rng, of)
+            spec['twin'] = key
     return spec
 
 
@@ -100,7 +120,7 @@ def species_kwargs(name, cond):
     """What the property says one species sees: the global conditions plus the block
     addressed to it (independent of pmutt._get_specie_kwargs)."""
     out = {k: v for k, v in cond.items() if not k.endswith('_kwargs')}
-    out.update(cond.get('%s_kwargs' % name, {}))
+    out.update(cond.get('%s_kwargs' % shown(name), {}))
     return out
 
 
@@ -132,7 +152,7 @@ def gen_conditions(rng, spec, with_blocks=True):
     if rng.random() < 0.7:
         cond['P'] = S.logu(rng, 1e-3, 1e2, 4)
     if with_blocks:
-        names = sorted(spec['species'])
-        for nm in rng.sample(names, rng.choice([0, 0, 1, 1, 2])):
+        names = sorted(set(shown(k) for k in spec['species']))
+        for nm in rng.sample(names, min(len(names), rng.choice([0, 0, 1, 1, 2]))):
             cond['%s_kwargs' % nm] = {'P': S.logu(rng, 1e-3, 1e2, 4)}
     return cond
